@@ -230,6 +230,8 @@ def print_probe(run_, prog, out, prop):
                     html = tbl._repr_html_()
                     tbl >> pdt.show_query()
                     tbl >> pdt.show()
+                    tbl >> pdt.ast_repr()
+                    tbl >> pdt.ast_repr(2, 1)
                     cols = list(tbl)
                     if cols and not tbl._cache.partition_by:
                         repr(cols[0])
@@ -241,7 +243,7 @@ def print_probe(run_, prog, out, prop):
             post = M.fingerprint_table(tbl)
             d = M.diff_nodes(pre["nodes"], post["nodes"])
             if d or pre["cache"] != post["cache"] or pre["ast_root"] != post["ast_root"]:
-                out.findings.append(Finding("san:I4", be, h, f"repr / _repr_html_ / show_query / show / repr(col) changed the table: {M._short(d)}", verb="repr"))
+                out.findings.append(Finding("san:I4", be, h, f"repr / _repr_html_ / show_query / show / ast_repr / repr(col) changed the table: {M._short(d)}", verb="repr"))
             if prop == "C11" and be == "pol":
                 m = re.search(r"shape: \((\d+), (\d+)\)", text)
                 mh = re.search(r"shape: \((\d+), (\d+)\)", html)
